@@ -54,13 +54,14 @@ func runC15(c *Ctx) {
 		for _, n := range k.names {
 			fn := m(n)
 			cnt, bad := 0, 0
-			eachInstr(fn, func(in ssa.Instruction) {
+			rg := p.RegionOf(fn, 2) // the iterator/handle may be obtained through a helper of the store
+			rg.Instrs(func(site regionSite, in ssa.Instruction) {
 				ia, ok := in.(*ssa.IndexAddr)
-				if !ok || !p.TermOf(ia.X).IsField("cfHandles", isParam(fn, 0)) {
+				if !ok || !rg.Term(site, ia.X).IsField("cfHandles", isParam(fn, 0)) {
 					return
 				}
 				cnt++
-				idx := p.TermOf(ia.Index)
+				idx := rg.Term(site, ia.Index)
 				if !(idx.Op == "const" && idx.Name == fmt.Sprint(k.want)) {
 					bad++
 					c.Fail("R1", funcName(fn), in.Pos(), "uses column family cfHandles["+idx.String()+"], expected the "+k.what+" column family")
@@ -154,18 +155,15 @@ func runC15(c *Ctx) {
 	// First/LastIndex
 	for _, k := range [][2]string{{"FirstIndex", "SeekToFirst"}, {"LastIndex", "SeekToLast"}} {
 		fn := m(k[0])
-		seek := len(callsIn(fn, func(cc *ssa.CallCommon) bool { return cc.StaticCallee() != nil && cc.StaticCallee().Name() == k[1] })) == 1
+		rg := p.RegionOf(fn, 2)
+		seek := len(rg.Calls(func(cc *ssa.CallCommon) bool { return cc.StaticCallee() != nil && cc.StaticCallee().Name() == k[1] })) == 1
 		var why []string
 		if !seek {
 			why = append(why, "does not position the iterator with "+k[1])
 		}
-		for _, b := range fn.Blocks {
-			ret, ok := b.Instrs[len(b.Instrs)-1].(*ssa.Return)
-			if !ok || b == fn.Recover {
-				continue
-			}
-			t := p.TermOf(RetVal(ret, 0))
-			cs := p.CondsAt(b)
+		for _, rc := range rg.ReturnCases(0) {
+			t := rc.T
+			cs := rc.Conds
 			valid := hasCond(cs, func(kc Cond) bool {
 				return kc.Pol && kc.Atom.Op == "call" && kc.Atom.Fn != nil && kc.Atom.Fn.Name() == "Valid"
 			})
